@@ -8,6 +8,25 @@ _Bool g_allow_elem_throw, g_allow_alloc_fail;
 uint64_t g_tmp_obj; _Bool g_tmp_has; int g_tmp_val;
 uint64_t g_cmp_obj1, g_cmp_off1, g_cmp_n1, g_cmp_obj2, g_cmp_off2, g_cmp_n2; int g_cmp_kind;
 
+#ifdef WITH_SETS
+uint64_t g_set_obj, g_set_off, g_set_n; int g_set_cmp_token; _Bool g_set_desc;
+uint64_t g_reg_idx[NREG]; int64_t g_reg_rank[NREG];
+uint64_t g_key_obj, g_key_off; int64_t g_key_rank;
+uint64_t g_lb[4]; uint64_t g_lb_calls; _Bool g_unregistered_read; uint64_t g_lg;
+_Bool g_has; uint64_t g_wit; uint64_t pre_ncmp;
+int64_t nondet_i64(void);
+static void l0_havoc_sets(void) {
+  g_set_obj = nondet_u64(); g_set_off = nondet_u64(); g_set_n = nondet_u64(); g_set_cmp_token = nondet_int(); g_set_desc = nondet_bool();
+#define HAVOC_REG(k) g_reg_idx[k] = nondet_u64(); g_reg_rank[k] = nondet_i64();
+  HAVOC_REG(0) HAVOC_REG(1) HAVOC_REG(2) HAVOC_REG(3) HAVOC_REG(4) HAVOC_REG(5) HAVOC_REG(6) HAVOC_REG(7) HAVOC_REG(8) HAVOC_REG(9)
+  g_key_obj = nondet_u64(); g_key_off = nondet_u64(); g_key_rank = nondet_i64();
+  g_lb[0] = nondet_u64(); g_lb[1] = nondet_u64(); g_lb[2] = nondet_u64(); g_lb[3] = nondet_u64();
+  g_lb_calls = 0; g_unregistered_read = 0; g_lg = nondet_u64();
+  __CPROVER_assume(g_lg < 64 && g_set_n < (1UL << 32) && g_set_off < (1UL << 40));
+  g_has = nondet_bool(); g_wit = nondet_u64(); if (!g_has) g_wit = ~(uint64_t)0; pre_ncmp = nondet_u64();
+}
+#endif
+
 /* ghost state and logical variables are arbitrary at the start of every proof (statics would otherwise be zero) */
 struct vsnap nondet_vsnap(void);
 struct gsnap nondet_gsnap(void);
@@ -29,5 +48,8 @@ static void l0_havoc(void) {
   g_allow_elem_throw = nondet_bool(); g_allow_alloc_fail = nondet_bool();
   g_N = nondet_u64(); g_alias = nondet_bool(); g_src = nondet_u64(); g_pos = nondet_u64(); g_pos2 = nondet_u64(); g_cnt = nondet_u64();
   __CPROVER_assume(g_src < (1UL << 32) && g_pos < (1UL << 32) && g_pos2 < (1UL << 32) && g_N < (1UL << 32));
+#ifdef WITH_SETS
+  l0_havoc_sets();
+#endif
   pre_self = nondet_vsnap(); pre_o = nondet_vsnap(); pre_g = nondet_gsnap();
 }
